@@ -5,6 +5,7 @@
 mod alpha;
 mod big;
 mod forms;
+mod frontier;
 mod model;
 mod pairs;
 mod runner;
@@ -19,6 +20,7 @@ mod c16;
 mod c17;
 mod c18;
 mod c19;
+mod c20;
 mod c05;
 mod c06;
 mod c07;
@@ -55,6 +57,7 @@ fn dispatch_replay(prop: &str, w: &serde_json::Value) -> Vec<(String, String)> {
         "C17" => c17::replay(w),
         "C18" => c18::replay(w),
         "C19" => c19::replay(w),
+        "C20" => c20::replay(w),
         _ => vec![],
     }
 }
@@ -116,6 +119,7 @@ fn main() {
         "C17" => c17::run(tier),
         "C18" => c18::run(tier),
         "C19" => c19::run(tier),
+        "C20" => c20::run(tier),
         other => {
             eprintln!("unknown property {}", other);
             2
